@@ -292,6 +292,7 @@ class Gen:
 
 class C17(Prop):
     id = "C17"
+    parallel = False   # engine is timing-sensitive (real Quinn loopback / OS threads parked at hooks): one harness process at a time
     modules = ["H3.Props.C17"]
     engines = ["quinn"]
     design_ref = "DESIGN.md section 7, C17"
